@@ -1,4 +1,4 @@
-(* Proofs/DeriveLenFacts.v — the derived CborLen is exact outside the classes F6 / F7 (C07, derived part). *)
+(* Proofs/DeriveLenFacts.v — the derived CborLen is exact (C07, derived part; F6 and F7 repaired). *)
 From MC Require Import Bytes BytesFacts Cbor Encoder EncoderFacts Types DeriveSchema DeriveEnc DeriveLen DeriveDoc DeriveKnown DeriveFacts.
 From Coq Require Import Lia Permutation.
 Local Open Scope N_scope.
@@ -9,34 +9,31 @@ Hypothesis Hty : forall t, okty t -> forall v cs, encode_ty t v = Some cs -> len
 
 Variable recE : nat -> value -> option (list chunk).
 Variable recL : nat -> value -> N.
-Variable recK : nat -> value -> bool.
-Hypothesis Hrec : forall d v cs, recE d v = Some cs -> recK d v = false -> recL d v = len (flat cs).
+Hypothesis Hrec : forall d v cs, recE d v = Some cs -> recL d v = len (flat cs).
 
-Variable group : encoding -> list pfield -> list value -> bool.
-
-Lemma enc_all_len (f : value -> option (list chunk)) (g : value -> N) (k : value -> bool) l cs :
-  (forall v c, In v l -> f v = Some c -> k v = false -> g v = len (flat c)) ->
-  enc_all f l = Some cs -> existsb k l = false -> sum_map g l = len (flat cs).
+Lemma enc_all_len (f : value -> option (list chunk)) (g : value -> N) l cs :
+  (forall v c, In v l -> f v = Some c -> g v = len (flat c)) ->
+  enc_all f l = Some cs -> sum_map g l = len (flat cs).
 Proof.
-  revert cs. induction l as [|v r IH]; intros cs Hf; cbn [enc_all sum_map fold_right existsb].
-  - intros [= <-] _. reflexivity.
-  - intros H Hk. apply ocat_some in H as (x & y & Hx & Hy & ->). apply orb_false_iff in Hk as [Hk1 Hk2].
-    rewrite len_flat_app. rewrite (Hf v x) by (auto; now left).
+  revert cs. induction l as [|v r IH]; intros cs Hf; cbn [enc_all sum_map fold_right].
+  - intros [= <-]. reflexivity.
+  - intros H. apply ocat_some in H as (x & y & Hx & Hy & ->).
+    rewrite len_flat_app. rewrite (Hf v x (or_introl eq_refl) Hx).
     fold (sum_map g r). rewrite (IH y); auto. intros. apply Hf; auto. now right.
 Qed.
 
-Lemma len_fty_ok f : forall v cs, fty_all okty f -> enc_fty recE f v = Some cs -> known_fty recK f v = false ->
+Lemma len_fty_ok f : forall v cs, fty_all okty f -> enc_fty recE f v = Some cs ->
   len_fty recL f v = len (flat cs).
 Proof.
-  induction f as [t|d|f' IH|f' IH]; intros v cs Hall He Hk.
+  induction f as [t|d|f' IH|f' IH]; intros v cs Hall He.
   - cbn in *. now apply Hty.
   - cbn in *. now apply Hrec.
   - destruct v; cbn in He; try discriminate.
     + injection He as <-. reflexivity.
-    + cbn in Hk |- *. now apply IH.
-  - destruct v; cbn in He; try discriminate. cbn [len_fty]. cbn [known_fty] in Hk.
+    + cbn. now apply IH.
+  - destruct v; cbn in He; try discriminate. cbn [len_fty].
     apply ocat3_some in He as (y & Hy & ->). rewrite len_flat_app, len_enc_array. f_equal.
-    eapply enc_all_len; [|exact Hy|exact Hk]. intros. now apply IH.
+    eapply enc_all_len; [|exact Hy]. intros. now apply IH.
 Qed.
 
 Lemma cust_len_ok v cs : cust_encode v = Some cs -> cust_len v = len (flat cs).
@@ -46,10 +43,10 @@ Proof.
 Qed.
 
 Lemma len_field_ok d vs pf cs : field_ok d (pf_fld pf) = true -> f_skip (pf_fld pf) = false -> fty_all okty (f_ty (pf_fld pf)) ->
-  enc_field_fn recE (pf_fld pf) (pf_val vs pf) = Some cs -> known_field recK vs pf = false ->
+  enc_field_fn recE (pf_fld pf) (pf_val vs pf) = Some cs ->
   len_field_fn recL (pf_fld pf) (pf_val vs pf) = len (flat cs).
 Proof.
-  unfold enc_field_fn, len_field_fn, known_field, field_ok. intros Hok Hs Hall He Hk. rewrite Hs in Hok.
+  unfold enc_field_fn, len_field_fn, field_ok. intros Hok Hs Hall He. rewrite Hs in Hok.
   destruct (f_codec (pf_fld pf)) eqn:Ec.
   - now apply len_fty_ok.
   - apply andb_prop in Hok as [_ Hok]. apply andb_prop in Hok as [_ Hok].
@@ -81,12 +78,20 @@ Proof.
       rewrite (Hg pf z (or_introl eq_refl) Hz). lia.
 Qed.
 
-Lemma len_as_map_ok vs l cs : fields_good vs l -> f6_group l vs = false -> enc_as_map recE l vs = Some cs ->
+Lemma max_fields_present vs l : forall n, max_fields l vs (n + len l) = n + present l vs.
+Proof.
+  induction l as [|pf r IH]; intro n; cbn [max_fields present]; [reflexivity|].
+  rewrite len_cons. destruct (fld_is_nil (pf_fld pf) (pf_val vs pf)).
+  - replace (n + (1 + len r) - 1) with (n + len r) by lia. rewrite IH. lia.
+  - replace (n + (1 + len r)) with (n + 1 + len r) by lia. rewrite IH. lia.
+Qed.
+
+Lemma len_as_map_ok vs l cs : fields_good vs l -> enc_as_map recE l vs = Some cs ->
   len_as_map recL l vs = len (flat cs).
 Proof.
-  unfold enc_as_map, len_as_map, f6_group. intros Hg H6 H. apply ocat3_some in H as (y & Hy & ->).
+  unfold enc_as_map, len_as_map. intros Hg H. apply ocat3_some in H as (y & Hy & ->).
   rewrite len_flat_app, len_enc_map. rewrite (len_map_steps_ok vs l y) by assumption.
-  apply negb_false_iff, N.eqb_eq in H6. now rewrite H6.
+  pose proof (max_fields_present vs l 0) as Hm. rewrite !N.add_0_l in Hm. now rewrite Hm.
 Qed.
 
 (* ---- array encoding ---- *)
@@ -95,51 +100,41 @@ Qed.
 Definition last_nonnil (vs : list value) (l : list pfield) (p i : N) : Prop :=
   (exists pf, In pf l /\ nilp vs pf = false /\ pf_idx pf = i) \/ (i < p /\ forallb (nilp vs) l = true).
 
-Lemma len_array_steps_ok vs i : forall l p num ln cs,
+Lemma len_array_steps_ok vs i : forall l p num ln pend cs,
   asc pf_idx p l -> num <= p ->
   (forall pf, In pf l -> nilp vs pf = false -> pf_idx pf <= i) ->
   last_nonnil vs l p i ->
   fields_good vs l -> nil_one vs l ->
-  (forall pf, In pf l -> nilp vs pf = true -> pf_idx pf < i -> has_tag (pf_fld pf) = false) ->
   arr_stmts recE l vs p i = Some cs ->
-  let r := len_array_steps recL l vs num ln in
+  let r := len_array_steps recL l vs num ln pend in
   (forallb (nilp vs) l = true /\ r = (num, ln) /\ cs = []) \/
-  (forallb (nilp vs) l = false /\ fst r = i + 1 /\ snd r = ln + (p - num) + len (flat cs)).
+  (forallb (nilp vs) l = false /\ fst r = i + 1 /\ snd r = ln + (p - num) + pend + len (flat cs)).
 Proof.
-  induction l as [|pf r IH]; intros p num ln cs Hasc Hnum Hle Hlast Hgood Hnil Htag; cbn [arr_stmts len_array_steps forallb].
+  induction l as [|pf r IH]; intros p num ln pend cs Hasc Hnum Hle Hlast Hgood Hnil; cbn [arr_stmts len_array_steps forallb].
   - intros [= <-]. left. auto.
   - intro H. apply ocat_some in H as (x & y & Hx & Hy & ->). cbn [asc] in Hasc. destruct Hasc as [Hp Hasc].
     assert (Hn1 : num <= pf_idx pf + 1) by lia. assert (Hn2 : pf_idx pf + 1 <= pf_idx pf + 1) by lia.
     fold (nilp vs pf). destruct (nilp vs pf) eqn:En; cbn [andb].
-    + (* a nil field *)
+    + (* a nil field: written as `tag null` if it lies below the highest present index *)
       assert (Hlast' : last_nonnil vs r (pf_idx pf + 1) i).
       { destruct Hlast as [(q & [<-|Hq] & Hqn & Hqi)|[Hi Hall]].
         - congruence.
         - left. exists q. auto.
         - right. cbn [forallb] in Hall. apply andb_prop in Hall as [_ Hall]. split; [lia|assumption]. }
+      specialize (IH (pf_idx pf + 1) num ln (pend + len_tag_opt (f_tag (pf_fld pf))) y Hasc Hn1
+                     (fun q Hq => Hle q (or_intror Hq)) Hlast'
+                     (fun q c Hq => Hgood q c (or_intror Hq)) (fun q c Hq => Hnil q c (or_intror Hq)) Hy).
+      cbn zeta in IH.
       destruct (N.leb_spec (pf_idx pf) i) as [Hi|Hi].
       * apply ocat3_some in Hx as (z & Hz & ->).
         assert (Hz1 : len (flat z) = 1) by (eapply Hnil; [now left|assumption|exact Hz]).
-        assert (Hnt : f_tag (pf_fld pf) = None).
-        { destruct Hlast as [(q & [<-|Hq] & Hqn & Hqi)|[Hlt _]]; [congruence| |lia].
-          assert (pf_idx pf + 1 <= pf_idx q) by (eapply asc_keys_ge; eassumption).
-          assert (Hlt : pf_idx pf < i) by lia.
-          specialize (Htag pf (or_introl eq_refl) En Hlt). unfold has_tag in Htag. destruct (f_tag (pf_fld pf)); [discriminate|reflexivity]. }
-        specialize (IH (pf_idx pf + 1) num ln y Hasc Hn1
-                       (fun q Hq => Hle q (or_intror Hq)) Hlast'
-                       (fun q c Hq => Hgood q c (or_intror Hq)) (fun q c Hq => Hnil q c (or_intror Hq))
-                       (fun q Hq => Htag q (or_intror Hq)) Hy).
-        cbn zeta in IH. destruct IH as [(Hall & Hr & ->)|(Hall & Hf & Hs)].
+        destruct IH as [(Hall & Hr & ->)|(Hall & Hf & Hs)].
         -- exfalso. destruct Hlast as [(q & [<-|Hq] & Hqn & _)|[Hlt _]]; [congruence| |lia].
            rewrite forallb_forall in Hall. specialize (Hall q Hq). congruence.
-        -- right. split; [assumption|]. split; [assumption|]. rewrite Hs, Hnt. cbn [enc_tag_opt].
-           rewrite app_nil_r, !len_flat_app, len_nulls, Hz1. lia.
+        -- right. split; [assumption|]. split; [assumption|]. rewrite Hs.
+           rewrite !len_flat_app, len_nulls, len_enc_tag_opt, Hz1. lia.
       * injection Hx as <-.
-        specialize (IH (pf_idx pf + 1) num ln y Hasc Hn1
-                       (fun q Hq => Hle q (or_intror Hq)) Hlast'
-                       (fun q c Hq => Hgood q c (or_intror Hq)) (fun q c Hq => Hnil q c (or_intror Hq))
-                       (fun q Hq => Htag q (or_intror Hq)) Hy).
-        cbn zeta in IH. destruct IH as [(Hall & Hr & ->)|(Hall & Hf & Hs)].
+        destruct IH as [(Hall & Hr & ->)|(Hall & Hf & Hs)].
         -- left. auto.
         -- exfalso. destruct Hlast' as [(q & Hq & Hqn & Hqi)|[_ Hall']]; [|congruence].
            assert (pf_idx pf + 1 <= pf_idx q) by (eapply asc_keys_ge; eassumption). lia.
@@ -157,10 +152,9 @@ Proof.
         - left. exists q. auto.
         - cbn [forallb] in Hall. rewrite En in Hall. discriminate. }
       specialize (IH (pf_idx pf + 1) (pf_idx pf + 1)
-                     (ln + (pf_idx pf - num + len_tag_opt (f_tag (pf_fld pf)) + len_field_fn recL (pf_fld pf) (pf_val vs pf))) y Hasc Hn2
+                     (ln + (pf_idx pf - num + pend + len_tag_opt (f_tag (pf_fld pf)) + len_field_fn recL (pf_fld pf) (pf_val vs pf))) 0 y Hasc Hn2
                      (fun q Hq => Hle q (or_intror Hq)) Hlast'
-                     (fun q c Hq => Hgood q c (or_intror Hq)) (fun q c Hq => Hnil q c (or_intror Hq))
-                     (fun q Hq => Htag q (or_intror Hq)) Hy).
+                     (fun q c Hq => Hgood q c (or_intror Hq)) (fun q c Hq => Hnil q c (or_intror Hq)) Hy).
       cbn zeta in IH. destruct IH as [(Hall & Hr & ->)|(Hall & Hf & Hs)].
       * rewrite Hr. cbn [fst snd]. destruct Hlast' as [(q & Hq & Hqn & _)|[Hlt _]].
         -- rewrite forallb_forall in Hall. specialize (Hall q Hq). congruence.
@@ -168,9 +162,9 @@ Proof.
       * split; [assumption|]. rewrite Hs, !len_flat_app, len_nulls, len_enc_tag_opt, Hzl. lia.
 Qed.
 
-Lemma len_array_steps_all_nil vs l num ln : forallb (nilp vs) l = true -> len_array_steps recL l vs num ln = (num, ln).
+Lemma len_array_steps_all_nil vs l : forall num ln pend, forallb (nilp vs) l = true -> len_array_steps recL l vs num ln pend = (num, ln).
 Proof.
-  induction l as [|pf r IH]; cbn [forallb len_array_steps]; [reflexivity|].
+  induction l as [|pf r IH]; intros num ln pend; cbn [forallb len_array_steps]; [reflexivity|].
   intro H. apply andb_prop in H as [H1 H2]. unfold nilp in H1. rewrite H1. now apply IH.
 Qed.
 
@@ -182,10 +176,10 @@ Proof.
   - eapply IH; eassumption.
 Qed.
 
-Lemma len_as_array_ok vs l cs : asc pf_idx 0 l -> fields_good vs l -> nil_one vs l -> f7_group l vs = false ->
+Lemma len_as_array_ok vs l cs : asc pf_idx 0 l -> fields_good vs l -> nil_one vs l ->
   enc_as_array recE l vs = Some cs -> len_as_array recL l vs = len (flat cs).
 Proof.
-  unfold enc_as_array, len_as_array, f7_group. intros Hasc Hg Hn H7.
+  unfold enc_as_array, len_as_array. intros Hasc Hg Hn.
   destruct (max_index l vs None) as [i|] eqn:Em.
   - intro H. apply ocat3_some in H as (y & Hy & ->). rewrite enc_array_stmts_eq in Hy.
     apply max_index_some in Em as [[_ ?]|(l1 & pf & l2 & -> & Hpn & Hpi & Hl2)]; [discriminate|].
@@ -196,11 +190,7 @@ Proof.
       - rewrite forallb_forall in Hl2. specialize (Hl2 q Hq). congruence. }
     assert (Hlast : last_nonnil vs (l1 ++ pf :: l2) 0 i).
     { left. exists pf. split; [apply in_or_app; right; now left|auto]. }
-    assert (Htag : forall q, In q (l1 ++ pf :: l2) -> nilp vs q = true -> pf_idx q < i -> has_tag (pf_fld q) = false).
-    { intros q Hq Hqn Hqi. destruct (has_tag (pf_fld q)) eqn:Et; [|reflexivity]. exfalso.
-      assert (existsb (fun pf0 => fld_is_nil (pf_fld pf0) (pf_val vs pf0) && has_tag (pf_fld pf0) && (pf_idx pf0 <? i)) (l1 ++ pf :: l2) = true); [|congruence].
-      apply existsb_exists. exists q. split; [assumption|]. unfold nilp in Hqn. rewrite Hqn, Et. cbn. now apply N.ltb_lt. }
-    pose proof (len_array_steps_ok vs i (l1 ++ pf :: l2) 0 0 0 y Hasc (N.le_refl 0) Hle Hlast Hg Hn Htag Hy) as R.
+    pose proof (len_array_steps_ok vs i (l1 ++ pf :: l2) 0 0 0 0 y Hasc (N.le_refl 0) Hle Hlast Hg Hn Hy) as R.
     cbn zeta in R. destruct R as [(Hall & _)|(_ & Hf & Hs)].
     + rewrite forallb_forall in Hall. specialize (Hall pf ltac:(apply in_or_app; right; now left)). congruence.
     + rewrite Hf, Hs, len_flat_app, len_enc_array. lia.
@@ -224,43 +214,39 @@ Proof.
 Qed.
 
 Lemma len_fields_ok d e fs vs cs : fields_ok d fs = true -> fields_all okty fs ->
-  enc_fields recE e fs vs = Some cs -> known_fields len_group recK e fs vs = false ->
+  enc_fields recE e fs vs = Some cs ->
   len_fields recL e fs vs = len (flat cs).
 Proof.
-  unfold enc_fields, known_fields, len_fields. intros Hok Hall He Hk.
+  unfold enc_fields, len_fields. intros Hok Hall He.
   destruct (Nat.eqb (length vs) (length fs)); [|discriminate].
-  apply orb_false_iff in Hk as [Hk1 Hk2].
   assert (Hfo : forall pf, In pf (sorted_fields fs) -> field_ok d (pf_fld pf) = true /\ f_skip (pf_fld pf) = false /\ fty_all okty (f_ty (pf_fld pf))).
   { intros pf Hpf. apply in_sorted_fields in Hpf as [Hin Hs]. unfold fields_ok in Hok. apply andb_prop in Hok as [Hok _].
     rewrite forallb_forall in Hok. unfold fields_all in Hall. rewrite Forall_forall in Hall. auto. }
   assert (Hg : fields_good vs (sorted_fields fs)).
-  { intros pf c Hpf Hc. destruct (Hfo pf Hpf) as (H1 & H2 & H3). eapply len_field_ok; try eassumption.
-    destruct (known_field recK vs pf) eqn:E; [|reflexivity]. exfalso.
-    assert (existsb (known_field recK vs) (sorted_fields fs) = true); [|congruence]. apply existsb_exists. eauto. }
+  { intros pf c Hpf Hc. destruct (Hfo pf Hpf) as (H1 & H2 & H3). eapply len_field_ok; eassumption. }
   assert (Hn : nil_one vs (sorted_fields fs)).
   { intros pf c Hpf Hnil Hc. destruct (Hfo pf Hpf) as (H1 & H2 & _). eapply nil_one_ok; eassumption. }
-  destruct e; cbn [len_group] in Hk1.
+  destruct e.
   - apply len_as_array_ok; try assumption. eapply sorted_fields_asc, Hok.
   - now apply len_as_map_ok.
 Qed.
 
 Lemma len_def_ok d df v cs : def_ok d df = true -> def_all okty df ->
-  enc_def recE df v = Some cs -> known_def len_group recK df v = false -> len_def recL df v = len (flat cs).
+  enc_def recE df v = Some cs -> len_def recL df v = len (flat cs).
 Proof.
-  destruct df as [e tag tr sh fs|e tag io vars]; intros Hok Hall He Hk.
-  - destruct v as [| | | | | | | |vs|]; try discriminate. cbn [enc_def len_def known_def def_ok def_all] in *.
+  destruct df as [e tag tr sh fs|e tag io vars]; intros Hok Hall He.
+  - destruct v as [| | | | | | | |vs|]; try discriminate. cbn [enc_def len_def def_ok def_all] in *.
     apply andb_prop in Hok as [Hok Htr]. apply andb_prop in Hok as [Hok _]. apply andb_prop in Hok as [_ Hfs].
     destruct tr.
     + destruct (sorted_fields fs) as [|pf [|? ?]] eqn:Es; try discriminate. destruct vs as [|x [|? ?]]; try discriminate.
       assert (Hpf : In pf (sorted_fields fs)) by (rewrite Es; now left).
       apply in_sorted_fields in Hpf as [Hin Hs].
-      cbn [existsb] in Hk. apply orb_false_iff in Hk as [Hk _].
       unfold fields_ok in Hfs. apply andb_prop in Hfs as [Hfs _]. rewrite forallb_forall in Hfs.
       unfold fields_all in Hall. rewrite Forall_forall in Hall.
       eapply len_field_ok; eauto.
     + apply ocat3_some in He as (y & Hy & ->). rewrite len_flat_app, len_enc_tag_opt. f_equal.
       eapply len_fields_ok; eassumption.
-  - destruct v as [| | | | | | | | |i [| | | | | | | |vs|]]; try discriminate. cbn [enc_def len_def known_def def_ok def_all] in *.
+  - destruct v as [| | | | | | | | |i [| | | | | | | |vs|]]; try discriminate. cbn [enc_def len_def def_ok def_all] in *.
     destruct (find_variant vars i) as [va|] eqn:Ef; [|discriminate].
     apply find_variant_in in Ef as [Hin Hi].
     apply andb_prop in Hok as [Hok _]. apply andb_prop in Hok as [_ Hvs]. rewrite forallb_forall in Hvs. specialize (Hvs va Hin).
@@ -273,9 +259,9 @@ Proof.
       * injection Hy as <-. rewrite len_flat_cons, !len_flat_app, len_enc_u32, len_enc_tag_opt.
         destruct (variant_encoding e va); rewrite ?len_enc_array, ?len_enc_map;
           change (len [ARRAY + as_u8 2]) with 1; change (len_u64 0) with 1; lia.
-    + destruct io; [discriminate|]. cbn [orb] in Hk.
+    + destruct io; [discriminate|].
       apply ocat3_some in Hy as (z & Hz & ->). rewrite !len_flat_app, len_enc_array, len_enc_u32, len_enc_tag_opt.
-      rewrite <- (len_fields_ok d (variant_encoding e va) (v_fields va) vs z Hfs Hall Hz Hk).
+      rewrite <- (len_fields_ok d (variant_encoding e va) (v_fields va) vs z Hfs Hall Hz).
       destruct (variant_encoding e va); change (len_u64 2) with 1; lia.
 Qed.
 End LenOk.
@@ -285,39 +271,38 @@ Variable okty : ty -> Prop.
 Hypothesis Hty : forall t, okty t -> forall v cs, encode_ty t v = Some cs -> len_ty t v = len (flat cs).
 
 Lemma gen_len_f_exact Sc : schema_ok Sc = true -> schema_all okty Sc ->
-  forall k d v cs, gen_encode_f k Sc d v = Some cs -> known_f len_group k Sc d v = false -> gen_len_f k Sc d v = len (flat cs).
+  forall k d v cs, gen_encode_f k Sc d v = Some cs -> gen_len_f k Sc d v = len (flat cs).
 Proof.
-  intros Hok Hall. induction k as [|k IH]; intros d v cs; cbn [gen_encode_f gen_len_f known_f]; [discriminate|].
+  intros Hok Hall. induction k as [|k IH]; intros d v cs; cbn [gen_encode_f gen_len_f]; [discriminate|].
   destruct (nth_error Sc d) as [df|] eqn:En; [|discriminate].
-  intros He Hk. eapply (len_def_ok okty Hty) with (d := d); try eassumption.
+  intros He. eapply (len_def_ok okty Hty) with (d := d); try eassumption.
   - intros d' v' cs'. cbn beta. destruct (Nat.ltb d' d); [apply IH|discriminate].
   - eapply schema_ok_nth; eassumption.
   - eapply schema_all_nth; eassumption.
 Qed.
 
-(* C07, derived part: outside the classes F6 / F7 the derived cbor_len is the number of bytes the derived
-   encoder writes — provided every built-in field type of the schema has an exact CborLen (hypothesis Hty,
-   to be discharged by C07_types). *)
+(* C07, derived part: the derived cbor_len is the number of bytes the derived encoder writes — provided every
+   built-in field type of the schema has an exact CborLen (hypothesis Hty, discharged by C07_types). *)
 Theorem gen_len_exact Sc d v cs : schema_ok Sc = true -> schema_all okty Sc ->
-  gen_encode Sc d v = Some cs -> known_len_derived Sc d v = false -> gen_len Sc d v = len (flat cs).
+  gen_encode Sc d v = Some cs -> gen_len Sc d v = len (flat cs).
 Proof. intros Hok Hall. apply gen_len_f_exact; assumption. Qed.
 End Top.
 
-(* ---- the witnesses of the two classes ---- *)
+(* ---- the former witnesses of F6 and F7, now exact ---- *)
 Definition f6_schema : schema :=
   [DStruct (Some AsMap) None false DsNamed
      (map (fun i => mkfield (N.of_nat i) false None CoDefault true false (FTy (TyOpt (TyU B8)))) (seq 0 24))].
 Definition f6_value : value := VList (repeat VNone 24).
 
-Lemma f6_refuted : schema_ok f6_schema = true /\ known_len_derived f6_schema 0 f6_value = true /\
-  exists cs, gen_encode f6_schema 0 f6_value = Some cs /\ flat cs = [160] /\ gen_len f6_schema 0 f6_value = 2.
-Proof. vm_compute. repeat split. eexists. repeat split. Qed.
+Lemma f6_repaired : schema_ok f6_schema = true /\
+  option_map flat (gen_encode f6_schema 0 f6_value) = Some [160] /\ gen_len f6_schema 0 f6_value = 1.
+Proof. vm_compute. repeat split. Qed.
 
 Definition f7_schema : schema :=
   [DStruct None None false DsNamed
      [mkfield 0 false (Some 5) CoDefault true false (FTy (TyOpt (TyU B8))); mkfield 1 false None CoDefault false false (FTy (TyU B8))]].
 Definition f7_value : value := VList [VNone; VNat 1].
 
-Lemma f7_refuted : schema_ok f7_schema = true /\ known_len_derived f7_schema 0 f7_value = true /\
-  exists cs, gen_encode f7_schema 0 f7_value = Some cs /\ flat cs = [130; 197; 246; 1] /\ gen_len f7_schema 0 f7_value = 3.
-Proof. vm_compute. repeat split. eexists. repeat split. Qed.
+Lemma f7_repaired : schema_ok f7_schema = true /\
+  option_map flat (gen_encode f7_schema 0 f7_value) = Some [130; 197; 246; 1] /\ gen_len f7_schema 0 f7_value = 4.
+Proof. vm_compute. repeat split. Qed.
